@@ -286,6 +286,9 @@ theorem readType_spec : ∀ (n : Nat) (p : P), 2 * p.mu + 3 ≤ n →
           simp only [h91, if_true]
           have ltr : Lt (reRead p0) p0 := reRead_lt p0 (by rw [hdeck]; exact hb)
           have ltp : Lt (reRead p0) p := ltr.trans_le l0
+          by_cases htd : tooDeep cm (reRead p0) = true
+          · simp only [htd, if_true]; exact ⟨ltp.le, by intro t ht; simp at ht⟩
+          simp only [htd, Bool.false_eq_true, if_false]
           have hfu : 2 * (reRead p0).enter.mu + 3 ≤ n := by have := ltp.2; simp; omega
           have ih := readType_spec n (reRead p0).enter hfu
           rcases hi : readType cm n (reRead p0).enter with ⟨⟨ti, ei⟩, pi⟩
@@ -438,6 +441,9 @@ theorem readValue_spec : ∀ (n : Nat) (p : P), 2 * p.mu + 3 ≤ n →
               by_cases h91 : b0 = 91
               · simp only [h91, if_true]
                 have ltr : Lt (reRead p0) p0 := reRead_lt p0 hd0
+                by_cases htd : tooDeep cm (reRead p0) = true
+                · simp only [htd, if_true]; exact arm (_, reRead p0) ltr.le (fun _ => ltr) _
+                simp only [htd, Bool.false_eq_true, if_false]
                 have hfu : 2 * (reRead p0).enter.mu + 4 ≤ n := by have := ltr.2; have := l0.2; simp; omega
                 have ih := readListBody_spec n (reRead p0).enter hfu
                 have : Lt (readListBody cm n (reRead p0).enter).2.leave p0 :=
@@ -447,6 +453,9 @@ theorem readValue_spec : ∀ (n : Nat) (p : P), 2 * p.mu + 3 ≤ n →
                 by_cases h123 : b0 = 123
                 · simp only [h123, if_true]
                   have ltr : Lt (reRead p0) p0 := reRead_lt p0 hd0
+                  by_cases htd : tooDeep cm (reRead p0) = true
+                  · simp only [htd, if_true]; exact arm (_, reRead p0) ltr.le (fun _ => ltr) _
+                  simp only [htd, Bool.false_eq_true, if_false]
                   have hfu : 2 * (reRead p0).enter.mu + 4 ≤ n := by have := ltr.2; have := l0.2; simp; omega
                   have ih := readObjBody_spec n (reRead p0).enter hfu
                   have : Lt (readObjBody cm n (reRead p0).enter).2.leave p0 :=
